@@ -78,6 +78,8 @@ fixed("F20", "C16", "phases() lists Rectifier", "phases() omitted Rectifier comp
 fixed("F12", "C17", "restores the battery source when a callback", "batt_life() left the probed voltage/resistance in the battery Source when a callback or the solver raised", ["C17.BattRestored"])
 fixed("F3", "C11", "magnitude of a negative on-resistance", "PMux(rs<0) / Rectifier(rs<0) kept the negative resistance: output above input, negative loss, efficiency above 100 %",
       ["C11.Stored", "C11.Normalises", "C11.PassiveNoGain", "C11.LossNonNeg", "C11.EffLe100"])
+fixed("F21", "C19", "make_hdiag tolerates a loss that is negative", "make_hdiag() raised ValueError (RGBA range) when a component reports a loss that is negative by a rounding error (0 Ohm switch / mux)",
+      ["C19.Renders"])
 
 json.dump({"_comment": "open = genuine defect recorded, not repaired (suppresses exactly the matching violations); "
                        "fixed = repaired by the named fix: commit in /repo (suppresses nothing)", "findings": F},
